@@ -56,6 +56,10 @@ FIRST_MISSED = {
     "C12-5": "no check reported it -> EXIT/CBCTX: the mailbox transport callbacks poll the context parameter in every loop and pass exactly that context on",
     "C12-6": "no check reported it -> ORDER: every shutdown step of gbn Close lies on every path through the once body",
     "C03-5": "no check reported it -> HSK-SIB: the passphrase is stretched exactly when the pattern is XX",
+    "C01-5": "own property silent (reported by C14 CHUNK-3) -> C01 imports the C14 obligations",
+    "C01-6": "no check reported it -> WIN-5: every queued packet is the one just received from Send or a newly allocated ping",
+    "C02-6": "no check reported it -> RDC-3: the count of every Flush a Write performs is accounted; C02 imports C15/C16",
+    "C04-5": "no check reported it -> HSK-VER: act 3 must echo the version chosen in act 2 (comparison with h.version under ActNum == act3)",
     "C06-3": "no check reported it -> RATELIMIT: once lastResend is refreshed the packets are transmitted",
 }
 
